@@ -87,7 +87,7 @@ def _case(draw):
             for it in large:
                 if it["k"] in ("abs", "pgrp"):
                     it["s"] = -1
-        focus = draw(st.sampled_from(["none", "none", "repeat-abs", "abs-both-sides", "repeat-var", "abs-variants"]))
+        focus = draw(st.sampled_from(["none", "none", "repeat-abs", "abs-both-sides", "repeat-var", "abs-variants", "cancel-abs"]))
         if focus == "repeat-abs":
             inner = draw(_side(cls, 0, False, False, 2))
             tgt = sides[0] if rel == "<=" else sides[-1]
@@ -99,6 +99,16 @@ def _case(draw):
             lo, hi = (sides[0], sides[1]) if rel == "<=" else (sides[1], sides[0])
             lo.append({"s": 1, "k": "abs", "c": {"val": float(big)}, "in": [dict(i) for i in inner]})
             hi.append({"s": 1, "k": "abs", "c": {"val": float(small)}, "in": [dict(i) for i in inner]})
+        elif focus == "cancel-abs":
+            # the same absolute term several times with weights whose partial sums pass through zero (or an explicit zero weight),
+            # net weight positive on the smaller side
+            inner = draw(_side(cls, 0, False, False, 2))
+            tgt = sides[0] if rel == "<=" else sides[-1]
+            c = float(draw(st.sampled_from([1, 2, 0.5, 1])))
+            seq = draw(st.sampled_from([[c, -c, c], [c, -c, 2 * c], [0.0, c], [c, 0.0, c], [-c, c, c], [c, c, -c]]))
+            for wgt in seq:
+                tgt.append({"s": -1 if wgt < 0 else 1, "k": "abs", "c": (None if abs(wgt) == 1 and draw(st.booleans()) else {"val": abs(wgt)}),
+                            "in": [dict(i) for i in inner]})
         elif focus == "abs-variants":
             # two absolute terms that look alike but are different functions (or the same one written differently)
             inner = draw(_side(cls, 0, False, False, 3))
